@@ -30,7 +30,8 @@ PROPS = {
         "steps": [("hv", "C03x", {}), ("hv", "C03s", {"_scale": 0.5}), ("hv", "wasmapi", {}), ("py", "san", "miri", "thorough_only")],
         "rule": "(a) exhaustive edit primitive: all texts of length 0..5 over {a,b,c} x all spans x Replace(len 0..3)/InsertAfter(len 0..2)/Remove "
                 "against an independent splice; (b) every lint and suggestion produced by the C01 document stream: span inside text, apply == "
-                "reference splice; non-trivial = lint with >= 1 suggestion not at offset 0; distinct = hash(message, flagged text)",
+                "reference splice; (c) the JS API: every suggestion of every lint of harper_wasm::Linter::lint applied through Linter::apply_suggestion on multi-byte texts whose "
+                "last lint touches the end of the text; non-trivial = lint with >= 1 suggestion not at offset 0; distinct = hash(message, flagged text)",
         "assumptions": ["does not judge whether a suggestion is linguistically right"],
     },
     "C04": {
@@ -77,7 +78,8 @@ PROPS = {
         "steps": [("py", "c08", "run")],
         "rule": "documents in 8 language ids with astral / combining characters, tabs, LF and CRLF, with and without trailing newline, lints on first and last line, empty lines; for each, code "
                 "actions are requested at every position of every line; the lints revealed by the HarperIgnoreLint commands (char span + suggestions) are cross-checked with the published "
-                "ranges and the returned text edits through an independent char<->UTF-16 position model and a reference splice; evaluations = positions probed; "
+                "ranges and the returned text edits through an independent char<->UTF-16 position model and a reference splice; lints whose message names what they flagged (spelling, repeated "
+                "word, indefinite article) must cover exactly those characters of the text the client sent (documents also start with U+FEFF / zero-width characters); evaluations = positions probed; "
                 "non-trivial = document with >= 1 lint; distinct = (language, #lints, multi-byte?, CRLF?, trailing newline?, text hash)",
         "assumptions": ["the lint JSON in the HarperIgnoreLint command is the server's own lint (that is what it executes when the user ignores it)"],
     },
@@ -147,7 +149,7 @@ PROPS = {
         "level": "exploration",
         "steps": [("hv", "C17", {})],
         "rule": "n = 0..100000 exhaustively x {st,nd,rd,th} x 4 letter cases alone and in one sentence frame each, plus random n < 2^53 stratified on n mod 100 "
-                "and magnitude in 8 sentence frames; oracle = integer ordinal rule; checks lint <=> wrong suffix, span = the two suffix letters, suggestion = correct "
+                "and magnitude in 16 sentence frames (incl. other numbers, decimal points, amounts and full stops before and after the ordinal); oracle = integer ordinal rule; checks lint <=> wrong suffix, span = the two suffix letters, suggestion = correct "
                 "suffix, silence after applying it; non-trivial = wrong-suffix case; distinct = hash(n mod 100, suffix, #digits, frame)",
         "assumptions": ["only the CorrectNumberSuffix rule is enabled"],
         "exhaustive_part": "all n in 0..=100000 x 4 suffixes x 4 letter cases",
@@ -166,8 +168,10 @@ PROPS = {
         "rule": "(a) exhaustive: all lists of <= 4 spans over positions 0..5 (21 spans); random lists up to 200 spans; "
                 "(b) every lint list of the C01 document stream; clauses: output is a sub-multiset, kept lints pairwise disjoint, each "
                 "dropped lint starts inside a kept one; then fixes applied back to front == any order with offset bookkeeping; "
+                "(c) what the JS API reports (harper_wasm::Linter::lint: pairwise no common character, one-pass back-to-front fix through apply_suggestion) and what harper-cli lint "
+                "prints (labels per message and in total bounded by the largest pairwise-disjoint selection of the raw lints, for no / one / two --only-lint-with rules); "
                 "non-trivial = list where something was dropped; distinct = hash(relative span pattern)",
-        "assumptions": [],
+        "assumptions": ["harper-cli prints no machine-readable spans: the CLI clause is a sound bound, not an exact comparison"],
     },
     "C19": {
         "level": "exploration",
